@@ -26,6 +26,21 @@ Deviates(m, s, a, tn, td) == Abs(RowSum(m, s, a) - m.PD) * td > tn * m.PD
 SomeDeviates(m, tn, td) == \E s \in States(m) : \E a \in Actions(m) : Deviates(m, s, a, tn, td)
 AllExact(m) == \A s \in States(m) : \A a \in Actions(m) : RowSum(m, s, a) = m.PD
 
+(* ---- tolerances and deviations that differ by LESS than any coarse unit ---------------------------------- *)
+(* Two-scale numbers: a coarse rational plus an integer number of fine units u, where u is so small that no  *)
+(* number of fine units in play adds up to one coarse step 1/(PD*td) (the observer guarantees it, see        *)
+(* FineNegligible in MatricesTrace).  Probabilities are pk/PD + fk*u, the tolerance is tn/td + tf*u.  Then   *)
+(* |row sum - 1| > tolerance is decided lexicographically: coarse parts first, fine parts on a tie.          *)
+FineSum(m, fk, s, a) == SumTo([e \in Events(m) |-> fk[s][a][e]], m.ne)
+DeviatesF(m, fk, s, a, tn, td, tf) ==
+  LET c == RowSum(m, s, a) - m.PD
+      f == FineSum(m, fk, s, a)
+      fa == IF c > 0 THEN f ELSE IF c < 0 THEN 0 - f ELSE Abs(f)       \* fine part of |deviation|
+  IN \/ Abs(c) * td > tn * m.PD
+     \/ Abs(c) * td = tn * m.PD /\ fa > tf
+SomeDeviatesF(m, fk, tn, td, tf) == \E s \in States(m) : \E a \in Actions(m) : DeviatesF(m, fk, s, a, tn, td, tf)
+NoFine(m) == [s \in States(m) |-> [a \in Actions(m) |-> [e \in Events(m) |-> 0]]]
+
 (* the operator defined by the matrices: Den * (max_a R[s][a] + gamma * sum_t P[a][s][t] V[t]) *)
 MatrixBackupNum(m, V) ==
   LET Pn == PNum(m)
